@@ -32,8 +32,9 @@ def _assert_tree():
     import cfdppy
 
     p = os.path.realpath(cfdppy.__file__)
-    if not p.startswith(os.path.realpath("/repo/src") + os.sep):
-        raise HarnessError(f"cfdppy imported from {p}, not from /repo/src")
+    root = os.environ.get("CFDPPY_VERIF_SCRATCH_REPO", "/repo")
+    if not p.startswith(os.path.realpath(os.path.join(root, "src")) + os.sep):
+        raise HarnessError(f"cfdppy imported from {p}, not from {root}/src")
 
 
 def _shard_entry(args):
@@ -295,15 +296,20 @@ def main(argv=None):
         "wall_s": round(wall, 2),
         "violations": nviol,
     }
-    os.makedirs(EVIDENCE_DIR, exist_ok=True)
+    evdir = EVIDENCE_DIR
+    if os.path.realpath(os.environ.get("CFDPPY_VERIF_SCRATCH_REPO", "/repo")) != os.path.realpath("/repo"):
+        # run against a scratch worktree with a seeded change: its evidence is not evidence about /repo
+        evdir = os.path.join("/tmp", "cfdppy-verif-scratch-evidence")
+        ev["scratch_repo"] = os.environ.get("CFDPPY_VERIF_SCRATCH_REPO")
+    os.makedirs(evdir, exist_ok=True)
     try:
         _validate_evidence(ev)
     except BaseException as e:  # noqa: BLE001
         print(f"HARNESS-ERROR property={prop} evidence invalid: {core.fmt_exc(e)}")
-        with open(os.path.join(EVIDENCE_DIR, f"{prop}.json.invalid"), "w") as f:
+        with open(os.path.join(evdir, f"{prop}.json.invalid"), "w") as f:
             json.dump(ev, f, indent=1, sort_keys=True)
         return 2
-    with open(os.path.join(EVIDENCE_DIR, f"{prop}.json"), "w") as f:
+    with open(os.path.join(evdir, f"{prop}.json"), "w") as f:
         json.dump(ev, f, indent=1, sort_keys=True)
 
     for l in lines_known:
